@@ -565,11 +565,39 @@ func runHistory(h *history, sec *vh.Section, section string) {
 	}
 	// MODEL
 	for i := 0; i < ns; i++ {
+		r.lines = append(r.lines, fmt.Sprintf("desc %d", i))
+	}
+	for i := 0; i < ns; i++ {
 		r.lines = append(r.lines, fmt.Sprintf("proj %d", i))
 	}
 	ans, derr := vh.Batch(args.Driver, r.lines)
 	if derr != nil {
 		res.Fatal(args.Out, "driver: %v", derr)
+	}
+	// saved positions: after the final quiescence the descriptor of every source the live pipe listens to stands at the
+	// end of what is stored — also when the last events were rejected by the filter (they are read once, not re-scanned)
+	if r.pipeLive {
+		ds, _ := r.srv.Pipes.VerifC10Descs(h.Name)
+		for i, t := range h.Sources {
+			m := strings.Fields(ans[len(ans)-2*ns+i])
+			implPos := "none"
+			for _, d := range ds {
+				if d.Tags == tagLine(t) {
+					implPos = strconv.Itoa(globalIdx(r.srv, tagLine(t), d.Pos))
+				}
+			}
+			modelPos := "none"
+			if len(m) >= 1 && m[0] != "none" {
+				modelPos = m[0]
+			}
+			if implPos != modelPos {
+				res.Mismatch(vh.Mismatch{Section: section, Function: fmt.Sprintf("ppDesc.Pos of source %d at the final quiescence (global record index)", i), Input: h, Impl: implPos, Model: modelPos})
+			}
+			if implPos != "none" && implPos != strconv.Itoa(len(r.written[i])) {
+				fail("position-not-advanced", fmt.Sprintf("source %d (%s): at quiescence the pipe's saved position is not the end of the stored data (events the filter rejects must be passed, not re-scanned)", i, tagLine(t)),
+					implPos, strconv.Itoa(len(r.written[i])), "", implPos == modelPos)
+			}
+		}
 	}
 	implEqModel := true
 	for i := 0; i < ns; i++ {
@@ -578,7 +606,7 @@ func runHistory(h *history, sec *vh.Section, section string) {
 		if canonModel(m) != impl {
 			implEqModel = false
 			// a difference that is a known schedule-dependent loss is classified below; everything else is a mismatch
-			if kind, _ := classifyLoss(proj[i], unfiltered[i]); kind == "" {
+			if kind, _ := classifyLoss(proj[i], expected[i]); kind == "" {
 				res.Mismatch(vh.Mismatch{Section: section, Function: fmt.Sprintf("pipe LTS, source %d: content of the pipe partition", i), Input: h, Impl: clip(impl), Model: clip(canonModel(m))})
 			}
 		}
@@ -611,16 +639,14 @@ func runHistory(h *history, sec *vh.Section, section string) {
 			continue
 		}
 		in := fmt.Sprintf("source %d (%s): ", i, tagLine(h.Sources[i]))
-		// F09: the difference is exactly the events the filter rejects
+		// F09 (fixed by f08ebbf; a recurrence is tagged so that the check reports "the defect is back"): the difference is
+		// exactly the events the filter rejects
 		if h.F.Kind != "true" && projLine(proj[i]) == projLine(unfiltered[i]) {
 			fail("filter-ignored", in+"the pipe partition holds events for which the pipe's filter is false",
 				clip(projLine(proj[i])), clip(projLine(expected[i])), "F09", implEqModel)
 			continue
 		}
 		ref := expected[i]
-		if h.F.Kind != "true" {
-			ref = unfiltered[i] // the filter is not applied (F09, reported above for other sources); judge the copying on the unfiltered data
-		}
 		kind, finding := classifyLoss(proj[i], ref)
 		switch kind {
 		case "tail-skip":
@@ -754,7 +780,14 @@ func genHistory(rng *vh.Rng, idx int, withFilter bool) *history {
 	}
 	h.S = sPool[rng.Intn(len(sPool))]
 	if withFilter {
-		switch rng.Intn(3) {
+		switch rng.Intn(4) {
+		case 3:
+			// rejects everything, or everything from some point on: long runs of rejected events at the end of the sources
+			if rng.Bool() {
+				h.F = fcond{Kind: "contains", S: "qq-never"}
+			} else {
+				h.F = fcond{Kind: "tslt", N: int64(rng.Range(1, 12))}
+			}
 		case 0:
 			h.F = fcond{Kind: "contains", S: rng.PickS([]string{"x", "k7", "zz"})}
 		case 1:
